@@ -398,6 +398,13 @@ theorem inv_getPcFF (w : Which) (s : Obj) (h : Inv s) : Inv (getPcFF w s).1 := b
   cases w <;> simp only [] <;> split <;> (try exact h) <;> split <;>
     (try exact h) <;> (unfold Inv okTag okFF2 at *; simp_all)
 
+theorem inv_infidelityCorr (tl idc : Bool) (s : Obj) (h : Inv s) :
+    Inv (infidelityCorr tl idc s).1 := by
+  unfold infidelityCorr
+  cases tl
+  · exact h
+  · exact inv_getPcFF _ s h
+
 theorem deriv_spec (g : Grid) (s : Obj) (h : Inv s) :
     At g (deriv g s).1 ∧ (deriv g s).2 = .val g true := by
   unfold deriv
@@ -405,7 +412,7 @@ theorem deriv_spec (g : Grid) (s : Obj) (h : Inv s) :
   generalize getCM g true s = r at *
   obtain ⟨s', r'⟩ := r
   simp only [] at this ⊢
-  refine ⟨this.1, ?_⟩
+  refine ⟨⟨(needEig_inv s').mpr this.1.1, (needEig_omega s').trans this.1.2⟩, ?_⟩
   rw [this.2]
   have hf := this.1.1.2.2.2.2.2.2.2.2.2.1
   have ho := this.1.2
@@ -475,7 +482,7 @@ theorem step_preserves_Inv (s : Obj) (op : Op) (h : Inv s) : Inv (step s op).1 :
   | eigAccess => exact (needEig_inv s).mpr h
   | totPropAccess => exact (needTotProp_inv s).mpr h
   | cleanup m => exact inv_cleanup m s h
-  | infidelity g tl corr =>
+  | infidelity g tl corr idc =>
     unfold step
     cases corr
     · simp only [Bool.false_eq_true, ↓reduceIte]
@@ -485,9 +492,9 @@ theorem step_preserves_Inv (s : Obj) (op : Op) (h : Inv s) : Inv (step s op).1 :
     · simp only [↓reduceIte]
       split
       · split
-        · exact inv_getPcFF _ s h
+        · exact inv_infidelityCorr tl idc s h
         · exact h
-      · exact inv_getPcFF _ s h
+      · exact inv_infidelityCorr tl idc s h
   | decayAmps g corr ci =>
     cases corr
     · exact (decayAmps_spec g ci s h).1.1
@@ -513,7 +520,7 @@ theorem served_value_is_fresh (s : Obj) (op : Op) (g : Grid) (h : Inv s)
   | getFF g' w o2 ci => simp [Op.grid] at hg; subst hg; exact (getFF_spec _ w o2 ci s h).2
   | getPhases g' => simp [Op.grid] at hg; subst hg; exact (getPhases_spec _ s h).2
   | deriv g' => simp [Op.grid] at hg; subst hg; exact (deriv_spec _ s h).2
-  | infidelity g' tl corr =>
+  | infidelity g' tl corr idc =>
     cases corr
     · simp [Op.grid] at hg; subst hg
       unfold step
